@@ -40,6 +40,10 @@ def run(w: World, rep: Report):
     _r4(w, rep)
     _r5(w, rep, storage)
     _r6(w, rep)
+    from .report import depend
+    depend(rep, w, 'rules_c09', ('C09.R1',), 'C07.TD9',
+           'the configured call-stack limit and the running count reach every sub-tape and every follow-up script: a tape '
+           'built without them falls back to the default limit of 128 and a count of 0 (C09.R1 re-evaluated)', floor=20)
     rep.explanation = (
         'A set of necessary structural conditions for C07, each decided on the current source: who may '
         'grow the stack storage and exactness of the guards in Stack.put (R1), Tape bounds (R2), '
@@ -149,6 +153,50 @@ def _r1(w: World, rep: Report, storage: str):
                           trivial=kind.startswith(('read', 'call:', 'arg:')))
     if n_acc < 12:
         raise AnalysisError(f'only {n_acc} accesses of the stack storage found')
+    # a guard's message is evaluated on every call, before the guard looks at its condition: it must not be able to
+    # raise itself (`x.to_bytes(2, 'big')` in the message of Tape.read turns every read past offset 65535 into an
+    # OverflowError - an interpreter-level failure on a valid script)
+    SAFE_IN_MESSAGE = {'len', 'str', 'repr', 'hex', 'get', 'type', 'format', 'join', 'keys', 'bool'}
+    for mn in ('classes',):
+        mod = w.repo.modules.get(mn)
+        badm = []
+        nmsg = 0
+        for c in [x for x in ast.walk(mod.tree) if isinstance(x, ast.Call) and isinstance(x.func, ast.Name) and
+                  x.func.id in ('sert', 'vert', 'tert', 'yert') and len(x.args) > 1]:
+            nmsg += 1
+            for inner in [y for y in ast.walk(c.args[1]) if isinstance(y, ast.Call)]:
+                nm = inner.func.attr if isinstance(inner.func, ast.Attribute) else (inner.func.id if isinstance(inner.func, ast.Name) else '?')
+                if nm not in SAFE_IN_MESSAGE:
+                    badm.append((c.lineno, ast.unparse(inner)[:40]))
+            for inner in [y for y in ast.walk(c.args[1]) if isinstance(y, ast.Subscript)]:
+                badm.append((c.lineno, ast.unparse(inner)[:40]))
+        rep.check('C07.R7', f'{mn}|guard-messages-cannot-raise', not badm, line=badm[0][0] if badm else None,
+                  file=f'tapescript/{mn}.py',
+                  why='' if not badm else f'the message of a guard computes `{badm[0][1]}`, which can raise by itself: the guard '
+                  f'then fails with that exception on inputs for which its condition holds', facts={'guard_messages': nmsg})
+    # the accessors hand out a stored item or raise: an instruction applied to too few items is an error, not an
+    # instruction applied to a made-up item (OP_LOOP peeks its condition; a default there silently skips the loop)
+    for mname in ('get', 'peek'):
+        mfi = w.repo.func('classes', f'Stack.{mname}')
+        rets = [r for r in ast.walk(mfi.node) if isinstance(r, ast.Return)]
+        bad = ''
+        for r in rets:
+            v = r.value
+            stored = v is not None and any(
+                (isinstance(x, ast.Subscript) and dotted(x.value) == f'self.{storage}') or
+                (isinstance(x, ast.Call) and isinstance(x.func, ast.Attribute) and x.func.attr in ('pop', 'popleft') and
+                 dotted(x.func.value) == f'self.{storage}') for x in ast.walk(v))
+            made_up = v is None or any(isinstance(x, ast.Constant) and isinstance(x.value, (bytes, type(None)))
+                                       for x in ast.walk(v)) and not isinstance(v, (ast.Subscript, ast.Call)) or \
+                isinstance(v, ast.IfExp) or isinstance(v, ast.BoolOp)
+            if not stored or made_up:
+                bad = f'`return {ast.unparse(v)[:30] if v is not None else ""}` hands out something that is not a stored item'
+        if any(isinstance(x, ast.Try) for x in ast.walk(mfi.node)):
+            bad = bad or 'the accessor catches exceptions: an empty stack no longer raises'
+        if not rets:
+            bad = 'no return'
+        rep.check('C07.R1', f'classes.Stack.{mname}|stored-item-or-raise', not bad, line=mfi.node.lineno,
+                  file='tapescript/classes.py', why=bad)
     # guards inside put
     cfg = w.cfg(put)
     item = put.params[1]
